@@ -60,6 +60,9 @@ CHECKS = {
  "C14": dict(engine=E3, technique="exhaustive enumeration of schemas x decoded values; generated converter executed, its output compiled in a second build and executed, rebuilt object compared with the input",
    text="Stage 1 calls the generated converter on the first <=10 valid documents of every struct-rooted schema (plain and veneered); stage 2 writes every returned expression into generated Go (one package per unit, per expression when a unit fails), compiles it with the toolchain and runs Build(); the expression must parse as a call chain over the builder API, compile, and rebuild every member in which the input differs from the default object; each option occurs at most once.",
    note="cog.Dump, which the Go runtime jenny never emits (a C02 finding), is supplied from testdata/generated/cog/runtime.go; members the input does not hold are not compared.", ref="§6 C14"),
+ "C02": dict(engine=E3, technique="exhaustive enumeration of schemas x the complete product of Go output options (64 flag sets x 4 output selections), all languages x formats, and directly constructed IRs; generated trees checked with go build, python compile+import, javac and a placeholder scan",
+   text="(A) 47 schemas (thorough: all 357 of grammar G's quick set) x all 256 Go configurations, every unit generated by the real pipeline and compiled with `go build` (byte-identical trees deduplicated); (B) every schema x 3 formats x Go/Python/Java/TypeScript/PHP configurations: Python byte-compiles and imports, Java compiles with javac against Jackson, TypeScript/PHP are scanned for placeholders; (C) grammar-I IRs injected through Pipeline.Transforms.CommonPasses. A run that returns an error passes (sanctioned refusal); a successful run must compile everywhere and contain no placeholder text. Failing configurations are reduced to the minimal flag condition.",
+   note="No tsc/php on the image: only the placeholder clause is decided for TypeScript and PHP; composable-slot IRs are excluded (need a variants runtime); panics are recorded as crash kinds (C04).", ref="§6 C02"),
 }
 
 NOT_YET = "check not built yet in this session (planned, see DESIGN.md §6); not claimed until it runs clean on the unchanged tree"
